@@ -142,6 +142,20 @@ theorem witness_after_signal_snoc (ws : List WPc) (sel n : Nat) (hn : 0 < n)
     · exact ovf k b hk
     · split <;> simp
 
+theorem all_exited_of_joined (ws : List WPc) (threads joinlist : List Nat)
+    (hreg : ∀ k, k ∈ threads ∨ ws.getD k .exited = .exited) (heq : joinlist = threads)
+    (hall : ∀ m, m < joinlist.length → ws.getD (joinlist.getD m 0) .exited = .exited) :
+    ∀ k, ws.getD k .exited = .exited := by
+  intro k
+  rcases hreg k with h | h
+  · subst heq
+    obtain ⟨m, hm, rfl⟩ := List.getElem_of_mem h
+    have := hall m hm
+    have e : joinlist.getD m 0 = joinlist[m] := by
+      rw [List.getD_eq_getElem?_getD, List.getElem?_eq_getElem hm]; rfl
+    rwa [e] at this
+  · exact h
+
 theorem count_map_wake_run (l : List WPc) (t : Task) : (l.map wakeWorker).count (.run t) = l.count (.run t) := by
   induction l with
   | nil => rfl
